@@ -2002,6 +2002,16 @@ class Transport(threading.Thread, ClosingContextManager):
         key = self._key_info[self.host_key_type](Message(host_key))
         if key is None:
             raise SSHException("Unknown host key type")
+        # The signature must be of the negotiated algorithm, not merely of
+        # some algorithm this key type can verify (RFC 8332 section 3).
+        sig_algo = Message(sig).get_text()
+        expected = self.host_key_type.replace("-cert-v01@openssh.com", "")
+        if sig_algo != expected:
+            raise SSHException(
+                "Host key signature uses {} instead of the negotiated {}".format(
+                    sig_algo, expected
+                )
+            )
         if not key.verify_ssh_sig(self.H, Message(sig)):
             raise SSHException(
                 "Signature verification ({}) failed.".format(
